@@ -83,6 +83,11 @@ where
     ensure!(got == want, format!("C19/ulps_eq/{kp}"), "ulps_eq({ia:?}, {ib:?}, eps={eps:?}, max_ulps={ulps}) = {got}, bound-wise verdict {want}");
     ensure!(ib.ulps_eq(&ia, eps, ulps) == got, format!("C19/ulps_eq_symmetry/{kp}"), "ulps_eq({ia:?}, {ib:?}) is not symmetric");
     obs.class(&format!("ulps/{kp}/{}", if got { "eq" } else if dis { "one-bound-differs" } else { "ne" }));
+    // the negated trait forms are the negations
+    ensure!(ia.abs_diff_ne(&ib, eps) == !ia.abs_diff_eq(&ib, eps), format!("C19/abs_diff_ne/{kp}"), "abs_diff_ne({ia:?}, {ib:?}, {eps:?}) is not the negation of abs_diff_eq");
+    ensure!(ia.relative_ne(&ib, eps, mr) == !ia.relative_eq(&ib, eps, mr), format!("C19/relative_ne/{kp}"), "relative_ne({ia:?}, {ib:?}) is not the negation of relative_eq");
+    ensure!(ia.ulps_ne(&ib, eps, ulps) == !ia.ulps_eq(&ib, eps, ulps), format!("C19/ulps_ne/{kp}"), "ulps_ne({ia:?}, {ib:?}, {eps:?}, {ulps}) = {} is not the negation of ulps_eq = {}", ia.ulps_ne(&ib, eps, ulps), ia.ulps_eq(&ib, eps, ulps));
+    ensure!(approx::abs_diff_ne!(ia, ib) == !approx::abs_diff_eq!(ia, ib) && approx::relative_ne!(ia, ib) == !approx::relative_eq!(ia, ib) && approx::ulps_ne!(ia, ib) == !approx::ulps_eq!(ia, ib), format!("C19/ne_macros/{kp}"), "a negated macro form disagrees with its positive form for {ia:?}, {ib:?}");
     // reflexive (for non-negative tolerances), implied by ==
     // (the scalar predicates themselves are not reflexive at infinite values: |inf - inf| is NaN)
     let finite = [c.a.0 .0, c.a.1 .0, c.b.0 .0, c.b.1 .0].iter().all(|x| x.is_finite());
